@@ -1,4 +1,4 @@
-// GENERATED on every run by vlib/extract.py from /tmp/refcheck-2660-r1-2_diff -- do not edit
+// GENERATED on every run by vlib/extract.py from /repo -- do not edit
 #![allow(unused_imports, unused_variables, unused_mut, dead_code, unused_parens, unused_braces, non_snake_case)]
 #![feature(allocator_api)]
 use vstd::prelude::*;
